@@ -45,4 +45,8 @@ and_ = Unit(
     records=RECORDS, props=("C10", "C20"),
 )
 
+from pyvc.replay import replay_range_overlaps
+overlaps.replay = replay_range_overlaps
+and_.replay = replay_range_overlaps
+
 UNITS = [overlaps, and_]
